@@ -10,10 +10,24 @@ open Model
    The instance that runs is the fully transcribed one (Int/DivSrcInst.v): num-modular's reciprocal
    division as in barrett.rs (Int/DivNumModular.v) and C01's model of mul::add_signed_mul; the
    exact-arithmetic instance (Int/DivWordInst.v) must agree with it (both are proved = floor division). *)
+(* word size of the build under test: 64 (default / release) or 32 (force_bits="32"; the plug-in sets C02_W=32 for that phase) *)
+let wb = (match Sys.getenv_opt "C02_W" with Some s -> int_of_string s | None -> 64)
+let zw = Zar.of_int wb
+let s64_typed_values = w_typed_values zw
+let s64_rem_idx = w_rem_idx zw
+let s64_repr_div = w_repr_div zw and m_repr_div = wx_repr_div zw
+let s64_repr_rem = w_repr_rem zw and m_repr_rem = wx_repr_rem zw
+let s64_repr_div_rem = w_repr_div_rem zw and m_repr_div_rem = wx_repr_div_rem zw
+let s64_const_rem = w_const_rem zw and m_const_rem = wx_const_rem zw
+let s64_const_div_rem = w_const_div_rem zw and m_const_div_rem = wx_const_div_rem zw
+let s64_kernel_asis = w_kernel_asis zw and m_kernel_asis = wx_kernel_asis zw
+let m_kernel_spec = w_kernel_spec zw
+let s64_is_multiple_of_const = w_is_multiple_of_const zw
+
 module Wordlevel = struct
-  let b64 = Zar.shift_left Zar.one 64
-  let b128 = Zar.shift_left Zar.one 128
-  let nw v = (Zar.numbits v + 63) / 64
+  let b64 = Zar.shift_left Zar.one wb          (* B   *)
+  let b128 = Zar.shift_left Zar.one (2 * wb)   (* B^2 *)
+  let nw v = (Zar.numbits v + wb - 1) / wb
   let t = Zar.to_int div_threshold_simple
   let is_pow2 v = Zar.sign v > 0 && Zar.popcount v = 1
   let path a b =
@@ -26,7 +40,7 @@ module Wordlevel = struct
   let cpath a d =
     if Zar.sign d = 0 then "zero"
     else (if Zar.lt d b64 then "c1" else if Zar.lt d b128 then "c2" else "cL") ^ (if Zar.lt a b128 then "-small" else "-large")
-      ^ (if Zar.lt d b128 && Zar.numbits d mod 64 = 0 then "-shift0" else "")
+      ^ (if Zar.lt d b128 && Zar.numbits d mod wb = 0 then "-shift0" else "")
   (* magnitude operation each form runs (div_ops.rs) *)
   let mag_ok ty f a b =
     let a = Zar.abs a and b = Zar.abs b in
@@ -48,7 +62,13 @@ module Wordlevel = struct
     let idx_ok = match f with
       | FRem | FRemEuclid | FIsMultipleOf when not is_const && Zar.geq a b128 && Zar.lt b b128 -> s64_rem_idx a b = Ok r
       | _ -> true in
-    typed_ok && idx_ok &&
+    (* round 4: the kernels REGENERATED from div/mod.rs, div/simple.rs, divide_conquer.rs and the regenerated helpers of
+       div_ops.rs::repr (Large dividend): every one of them must give the quotient / remainder *)
+    let gen_ok = is_const || Zar.lt a b128 ||
+      (if Zar.lt b b128 then gw_div_rem_small zw a b = (q, r) && Zar.equal (gw_rem_small zw a b) r
+       else nw a < nw b ||
+         (gw_div_rem_large zw a b = (q, r) && Zar.equal (gw_div_large zw a b) q && Zar.equal (gw_rem_large zw a b) r)) in
+    typed_ok && idx_ok && gen_ok &&
     match f with
     | FDiv when not is_const -> s64_repr_div a b = Ok q && m_repr_div a b = Ok q
     | FDivEuclid when ty = "u" -> s64_repr_div a b = Ok q && m_repr_div a b = Ok q
@@ -66,6 +86,8 @@ module Wordlevel = struct
     let asis = (match s64_kernel_asis (Zar.of_int which) lhs rhs (Zar.of_int m) with Ok x -> show3 x | OutOfFuel -> "outoffuel" | _ -> "other") in
     let asis = (match m_kernel_asis (Zar.of_int which) lhs rhs (Zar.of_int m) with
                 | Ok x when show3 x = asis -> asis | _ -> "instances-disagree") in
+    (* the generated schoolbook kernel / the generated algorithm switch *)
+    let asis = if which = 2 || show3 (gw_kernel zw (Zar.of_int which) lhs rhs (Zar.of_int m)) = asis then asis else "generated-kernel-disagrees" in
     let n = nw rhs in
     let cls = Printf.sprintf "cls=k%d-n%s-q%s" which (if n <= 32 then "le32" else "gt32") (if m - n <= 32 then "le32" else if m >= 2 * n then "ge2n" else "gt32") in
     if Sys.getenv_opt "C02_DEBUG" <> None && split_ws asis <> got then prerr_endline ("asis: " ^ asis);
@@ -96,7 +118,7 @@ let prim_range ty =
   | "i64" | "isize" -> (Zar.neg (p 63), p 63) | _ -> (Zar.neg (p 127), p 127)
 let fits ty v = let (lo, hi) = prim_range ty in Zar.leq lo v && Zar.lt v hi
 
-let nwords v = (Zar.numbits (Zar.abs v) + 63) / 64
+let nwords v = (Zar.numbits (Zar.abs v) + wb - 1) / wb
 let size_class a b =
   let c n = if n <= 2 then string_of_int n else if n <= 31 then "s" else if n <= 33 then string_of_int n else "L" in
   let na = nwords a and nb = nwords b in
@@ -120,6 +142,20 @@ let judge op args got =
       let fid = if wl_ok then fidelity asis got else "asis=diff" in
       let extra = fid ^ " " ^ size_class x y ^ " " ^ path in
       expect ~nt:(Zar.sign y <> 0 && Zar.sign x <> 0) ~extra (show (form_spec f x y)) got
+  | "c" when form = "fields" ->
+      (* construction of a ConstDivisor: verdict = zero panics, value() gives the divisor back; fidelity = the stored shift,
+         normalised divisor and reciprocal are those of Int/DivConstNew.v (new, from_word, from_dword agree in the harness) *)
+      let d = a 0 in
+      let asis = show (gw_const_fields zw d) in
+      let from_ok = Zar.sign d = 0 ||
+        ((Zar.geq d Wordlevel.b64 || gw_const_from zw false d = gw_const_fields zw d) &&
+         (Zar.geq d Wordlevel.b128 || gw_const_from zw true d = gw_const_fields zw d)) in
+      let fid = "asis=" ^ (if from_ok && split_ws asis = got then "same" else "diff") in
+      let cls = "cls=const-new-" ^ (if Zar.sign d = 0 then "zero" else if Zar.lt d Wordlevel.b64 then "single" else if Zar.lt d Wordlevel.b128 then "double" else "large") in
+      if Sys.getenv_opt "C02_DEBUG" <> None && split_ws asis <> got then prerr_endline ("asis: " ^ asis);
+      (match got with
+       | "ok" :: v :: _ when Zar.sign d <> 0 -> if Zar.equal (z v) d then pass ~nt:true ~extra:(fid ^ " " ^ cls) () else fail ("ok " ^ hx d ^ " <fields>")
+       | _ -> expect ~extra:(fid ^ " " ^ cls) (if Zar.sign d = 0 then "panic DivideBy0" else "ok " ^ hx d ^ " <fields>") got)
   | "c" -> (* ConstDivisor::new(d).value() = d, zero panics *)
       let d = a 0 in
       expect (if Zar.sign d = 0 then "panic DivideBy0" else "ok " ^ hx d) got
